@@ -27,9 +27,17 @@ import (
 
 const (
 	verifDir = "/verif"
-	repoDir  = "/repo"
 	goBin    = "/opt/veriftools/go1.26.8/bin"
 )
+
+// repoDir is the tree that is instrumented and checked: /repo's working tree. Trials with deliberately
+// broken trees (tools/mutant.sh) point VERIF_REPO at a scratch worktree instead of patching /repo.
+var repoDir = func() string {
+	if d := os.Getenv("VERIF_REPO"); d != "" {
+		return d
+	}
+	return "/repo"
+}()
 
 func goEnv() []string {
 	env := os.Environ()
